@@ -181,6 +181,8 @@ def judge_proba(case):
 
 def judge_case(record):
     c = record["case"]
+    if c.get("shared"):
+        return judge_shared(c)["viol"]
     return (judge_proba(c) if "s" in c else judge(c))["viol"]
 
 
@@ -211,9 +213,43 @@ def fixed_cases():
             yield {"prog": prog, "inputs": [M.enc_inputs({n: v for n in names}) for v in odd]}
 
 
+def shared_cases():
+    """a splitter that the conditions read as well (its text goes into the key, its VALUE is compared): every value type still
+    gets a group, and the right one"""
+    I, L, S = M.ident, M.lit_int, M.lit_str
+    G = lambda p: M.ret([(S("%s%d" % (p, j)), "1") for j in range(4)])  # noqa: E731
+    body = M.if_([(M.cmp_(I("account_id"), "==", L("7")), G("seven")),
+                  (M.cmp_(I("account_id"), "in", M.tup([L("1"), S("x"), M.lit_float("2.5"), S("7")])), G("listed")),
+                  (M.and_(M.cmp_(I("account_id"), "!=", S("")), M.cmp_(I("region"), "not in", M.tup([S("eu"), L("0")]))), G("other"))], G("rest"))
+    vals = [7, 7.0, "7", True, 1, 1.0, "x", 2.5, "", None, 0, False, float("nan"), 10 ** 30, -0.0, "é", b"7", (7,), 9007199254740993]
+    for salt in (None, "s"):
+        prog = M.program("exp", body, salt=salt, splitters=["account_id", "region"])
+        yield {"shared": True, "prog": prog, "inputs": [M.enc_inputs({"account_id": v, "region": r}) for v in vals for r in ("eu", "us", 0)]}
+
+
+def judge_shared(case):
+    from .. import common
+
+    prog = case["prog"]
+    text = M.render(prog)
+    res = sut.compile_text(text)
+    if res[0] != "ok":
+        return {"viol": ["does not compile: %s %s | %r" % (res[1], res[2], text)], "tags": ["shared-splitter-condition-field"]}
+    viol = []
+    for enc in case["inputs"]:
+        env = M.dec_inputs(enc)
+        msg = common.check_routing(prog, env, sut.call(res[1], env))
+        if msg:
+            viol.append("%s | inputs=%r | %s" % (msg, env, text[:200]))
+    return {"viol": viol[:4], "nontrivial": True, "tags": ["shared-splitter-condition-field"], "key": [text, case["inputs"]], "sample": {"text": text[:200]}}
+
+
 def run(ctx, rec):
     if ctx.shard == 0:
         runner.direct_run(ctx, rec, "salt-catalogue", fixed_cases(), judge)
+        if rec.violations:
+            return
+        runner.direct_run(ctx, rec, "splitter-also-read-by-conditions", shared_cases(), judge_shared)
         if rec.violations:
             return
     runner.hyp_run(ctx, rec, "programs", cases(), judge, ctx.n(500, 3000))
